@@ -694,7 +694,7 @@ fn tostring(rep: &mut Report, t: &mut Tally) {
     } + nrand;
     let _ = total;
     let mut cell = 0u64;
-    let mut run_one = |rep: &mut Report, t: &mut Tally, rng: &mut Rng, p: P, m: Mode, kind: u64, off: Option<i128>, directed: bool| {
+    let run_one = |rep: &mut Report, t: &mut Tally, rng: &mut Rng, p: P, m: Mode, kind: u64, off: Option<i128>, directed: bool| {
         let (s, nd) = step_of(p);
         let o = match off {
             Some(o) => o,
